@@ -695,6 +695,38 @@ func genC20(o *Out, rng *rand.Rand, tier string) {
 			return subj6(d)
 		}, "relay6-eui64-peers-every-method")
 	}
+	// values as they come off the wire from other implementations: acceptable but not what this library would have
+	// written (repeated request codes, compressed names, reserved bits, unsorted DHCPv4 areas), alone and behind relays -
+	// a value that does not re-encode byte for byte is where a cached encoding and the fields can drift apart
+	for k := 0; k < 8; k++ {
+		kk := k
+		exhaustive(func(r *rand.Rand) subject {
+			w := []byte{byte(1 + kk%3), 9, 9, byte(kk)}
+			w = append(w, 0, 6, 0, 8, 0, 23, 0, 24, 0, 23, 0, 23) // a request list naming a code three times
+			names := []byte{3, 'f', 'o', 'o', 3, 'c', 'o', 'm', 0, 3, 'b', 'a', 'r', 0xc0, 4}
+			w = append(append(w, 0, 24, 0, byte(len(names))), names...)
+			w = append(w, 0, 39, 0, 6, 0xff, 1, 'h', 1, 'x', 0) // FQDN with reserved flag bits
+			w = append(w, 0, 1, 0, 10, 0, 3, 0, 1, 2, 0, 0, 0, 0, 7)
+			for hops := 0; hops < kk%3; hops++ {
+				hdr := append(append([]byte{12, byte(hops)}, net.ParseIP("2001:db8::1")...), net.ParseIP("fe80::2ff:fe00:1")...)
+				hdr = append(hdr, 0, 18, 0, 2, 'i', byte(hops), 0, 9, byte(len(w)>>8), byte(len(w)))
+				w = append(hdr, w...)
+			}
+			d, err := dhcpv6.FromBytes(w)
+			if err != nil {
+				panic("harness: the non-canonical message must decode: " + err.Error())
+			}
+			return subj6(d)
+		}, "decoded-noncanonical6-every-method")
+		exhaustive(func(r *rand.Rand) subject {
+			for {
+				w, _ := wirePacket4(r)
+				if q, err := dhcpv4.FromBytes(w); err == nil {
+					return subj4(q)
+				}
+			}
+		}, "decoded-noncanonical4-every-method")
+	}
 	// messages holding several instances of the same option type (accessors that merge or pick among them)
 	for k := 0; k < 12; k++ {
 		exhaustive(func(r *rand.Rand) subject {
